@@ -77,7 +77,7 @@ IO_CAPABLE = ("std::io::Error", "error::Error", "xt::Error", "serde_json::Error"
 
 # error types that cannot carry an I/O or parser failure: a Result over them is outside this property
 NON_IO_ERRORS = ("std::str::Utf8Error", "std::string::FromUtf8Error", "std::array::TryFromSliceError", "std::convert::Infallible",
-                 "std::num::TryFromIntError", "std::char::CharTryFromError", "std::char::DecodeUtf16Error", "std::num::ParseIntError", "&'static str", "&str", "()")
+                 "std::num::TryFromIntError", "std::char::CharTryFromError", "std::char::DecodeUtf16Error", "std::num::ParseIntError", "std::ffi::OsString", "&'static str", "&str", "()")
 
 
 def _err_type_of(ty):
@@ -115,6 +115,27 @@ def _err_payload_used(b, local):
         if t["k"] == "switch" and t["discr"].get("k") in ("copy", "move") and mentions(t["discr"]["p"]):
             return True
     return False
+
+
+def _diagnostic_before_exit(b, bb, t):
+    """The call writes to standard error and every path from it ends in process::exit: the documented
+    'print the message, ignore a failing stderr, exit' idiom."""
+    f = fn_of(t) or {}
+    if not common.is_io_write_call(t) or "Stderr" not in (f.get("self_ty", "") + " ".join(f.get("args", []))):
+        return False
+    if t["target"] is None:
+        return False
+    r = b.reachable_from(t["target"])
+    ends = [x for x in r if not b.succ(x)]
+    if not ends:
+        return False
+    for x in ends:
+        tt = b.blocks[x]["term"]
+        if tt["k"] == "unreachable":
+            continue
+        if not (tt["k"] == "call" and (fn_of(tt) or {}).get("def") == "std::process::exit"):
+            return False
+    return any(b.blocks[x]["term"]["k"] == "call" for x in ends)
 
 
 def _reviewed():
@@ -164,6 +185,11 @@ def r12_1(ctx):
                     ctx.ob(f"handled:{crate.kind}:{b.id}:{f.get('name', '?')}:{seen_ok[k] - 1}", True, site(b, bb), "result is " + ",".join(sorted(good)))
                     continue
                 form = ",".join(sorted(cls)) or "unused"
+                if form == "dropped" and _diagnostic_before_exit(b, bb, t):
+                    k = (crate.kind, b.id, f.get("name", "?"))
+                    seen_ok[k] = seen_ok.get(k, 0) + 1
+                    ctx.ob(f"handled:{crate.kind}:{b.id}:{f.get('name', '?')}:{seen_ok[k] - 1}", True, site(b, bb), "best-effort diagnostic: a write to stderr whose every continuation is process::exit", trivial=True)
+                    continue
                 key = (crate.kind, b.file, f.get("name", "?"), form)
                 used[key] = used.get(key, 0) + 1
                 if used[key] <= budget.get(key, 0):
